@@ -38,6 +38,10 @@ def run(ctx):
     ctx.rule("C05.g", "Line's Display separates number and text by exactly one blank, the blank "
              "BasicLexer::lex strips after a line number")
     rule_h(ctx, cr)
+    ctx.rule("C05.i", "a line and its listing are accepted or rejected alike at the end of the "
+             "line: whatever end-of-line trimming removes, it does not leave an empty token that "
+             "the listing cannot show")
+    rule_i(ctx, cr)
     kw = lt.keywords(cr)
     mn = lt.minutia(cr)
     ctx.touch("lang::token::Token::scan_alphabetic", "lang::token::Token::match_minutia")
@@ -267,6 +271,25 @@ def run(ctx):
     sp = any(ch == " " for ch, _b, _d, _s, _o in lt.char_consts(lx))
     ctx.check(sp, "C05.g", "lex/strips-one-blank", lx.span,
               "lex() tests for one ' ' after the line number")
+
+
+def rule_i(ctx, cr):
+    """end-of-line trimming cannot leave an empty token behind"""
+    f = cr.need_fn("lang::lex::BasicLexer::trim_end")
+    ctx.touch(f)
+    trims = f.calls_matching(r"<impl str>::trim_end$")
+    pushes = [c for c in f.calls_matching(r"Vec::<T, A>::push$")
+              if (f.stored_variant(f.value_of_operand(c.args[1])) or ("", ""))[1] == "Unknown"]
+    ok = True
+    if trims:
+        ok = bool(pushes) and all(
+            any(cc[0] == "eq" and "is_empty" in str(cc[1]) and cc[2] is False for cc in f.conds_at(c.bb))
+            for c in pushes)
+    ctx.check(ok, "C05.i", "trim_end/no-empty-token", f.span,
+              "a trailing token that trimming empties is dropped, not kept as an empty token",
+              "trim_end() strips Unicode whitespace (CR, FF, VT, NBSP ...) from the last unknown "
+              "token and pushes the result even when nothing is left: `10 PRINT 5<CR>` keeps an "
+              "empty token and is a SYNTAX ERROR, while its listing `10 PRINT 5` is accepted")
 
 
 def rule_h(ctx, cr):
